@@ -8,6 +8,7 @@ import (
 	"io"
 	"log"
 	"os"
+	"slices"
 	"sync"
 	"time"
 	"unsafe"
@@ -614,6 +615,14 @@ func (cachefile *cacheFile) SetData(stream *index.Stream, convertedPackets []ind
 func (cachefile *cacheFile) setData(streamID uint64, streamTime time.Time, convertedPackets []index.Data) error {
 	cachefile.rwmutex.Lock()
 	defer cachefile.rwmutex.Unlock()
+
+	// A chunk without content cannot be stored: a zero length marks a change of
+	// direction and two of them end the chunk sizes. Such a chunk carries no data, drop it.
+	if slices.ContainsFunc(convertedPackets, func(p index.Data) bool { return len(p.Content) == 0 }) {
+		convertedPackets = slices.DeleteFunc(slices.Clone(convertedPackets), func(p index.Data) bool {
+			return len(p.Content) == 0
+		})
+	}
 
 	// The new data replaces whatever is cached for this stream.
 	cachefile.freeStream(streamID)
